@@ -288,8 +288,8 @@ func qkv(l []KVJ) string {
 // an evaluation that is merely slow: they only fire for a loop that does not
 // end (with or without allocating).
 const (
-	caseHeapLimit = 768 << 20 // bytes of heap growth (an honest case stays below ~20 MiB)
-	caseTimeLimit = 60 * time.Second
+	caseHeapLimit = 768 << 20         // bytes of heap growth (an honest case stays below ~20 MiB)
+	caseTimeLimit = 200 * time.Second // below the driver's own 20 s + 240 s grace, so that the enumerations leave in order too
 )
 
 // check runs the oracle under a heap/time monitor. A runaway case is reported
@@ -727,7 +727,7 @@ func TestForCap(t *testing.T) {
 			c.Obs = pbt.NewObs()
 		}
 		tmpl := string(c.Template)
-		return monitored(tmpl, caseHeapLimit, 2*caseTimeLimit, func() error {
+		return monitored(tmpl, caseHeapLimit, caseTimeLimit, func() error {
 			setGlobals(Case{})
 			for _, opt := range []bool{false, true} {
 				if err := runTable("production", opt, builderFor(false, opt), tmpl, c, true); err != nil {
@@ -761,10 +761,14 @@ func TestForCap(t *testing.T) {
 
 var crashRe = regexp.MustCompile(`(?m)^(panic: |fatal error: |goroutine \d+ \[)`)
 
+// cliTimeout bounds one run of the tool (an honest one takes milliseconds:
+// the library run on the same data stayed within the work budget).
+const cliTimeout = 120 * time.Second
+
 func cliSafe(s string) bool { return !strings.ContainsRune(s, 0) }
 
 func runCLI(bin string, args []string, stdin string) (stderr string, code int, err error) {
-	ctx, cancel := context.WithTimeout(context.Background(), 60*time.Second)
+	ctx, cancel := context.WithTimeout(context.Background(), cliTimeout)
 	defer cancel()
 	cmd := exec.CommandContext(ctx, bin, args...)
 	cmd.Stdin = strings.NewReader(stdin)
@@ -773,7 +777,10 @@ func runCLI(bin string, args []string, stdin string) (stderr string, code int, e
 	cmd.Stdout = nil
 	runErr := cmd.Run()
 	if ctx.Err() != nil {
-		return eb.String(), -1, fmt.Errorf("did not exit within 60s")
+		// reported as non-termination: the driver journals the case and leaves
+		// (shrinking would re-run the stuck tool again and again)
+		fmt.Printf("C08: rare %s did not exit within %v\n", q(strings.Join(args, " ")), cliTimeout)
+		return eb.String(), -1, pbt.ErrHang{After: cliTimeout}
 	}
 	code = 0
 	if ee, ok := runErr.(*exec.ExitError); ok {
@@ -867,7 +874,7 @@ func checkCLI(c Case) error {
 			if run {
 				stderr, code, err := runCLI(bin, args, "")
 				if err != nil {
-					return fmt.Errorf("rare expression %s: %v", q(tmpl), err)
+					return err
 				}
 				if crashRe.MatchString(stderr) {
 					return fmt.Errorf("rare expression crashed (exit %d) on template %s data %s:\n%s", code, q(tmpl), qs(c0.Groups), pbt.Trunc(stderr, 1500))
@@ -912,7 +919,7 @@ func checkCLI(c Case) error {
 	args := append(append([]string{}, global...), "filter", "-m", re, "-e", tmpl)
 	stderr, code, err := runCLI(bin, args, lines.String())
 	if err != nil {
-		return fmt.Errorf("rare filter -e %s: %v", q(tmpl), err)
+		return err
 	}
 	if crashRe.MatchString(stderr) {
 		return fmt.Errorf("rare filter -e crashed (exit %d) on template %s lines %s:\n%s", code, q(tmpl), q(lines.String()), pbt.Trunc(stderr, 1500))
@@ -930,7 +937,7 @@ func TestCLI(t *testing.T) {
 	sp.Name = "cli"
 	sp.Rule = "grammar and mutation cases (1:1) that pass the library oracle are replayed through the built rare binary: `rare [--noload --color|--nocolor --nounicode --noformat] expression [--no-optimize] -d .. -k .. TEMPLATE` with the first context and `rare filter -m <4 TAB-separated fields, one named k> -e TEMPLATE` over one line per context; oracle: the process exits by itself and prints no Go panic / fatal-error trace (exit status is not asserted). before each tool run the library oracle is run on the very match data the tool will build (its group numbering and special keys); tool runs whose library run was clamped, and templates/data that cannot be passed as argv (NUL, leading '-', commas in -d/-k), are left out and counted"
 	sp.Budget = pbt.Budget{Quick: 2400, Thorough: 40000}
-	sp.Watchdog = 150 * time.Second
+	sp.Watchdog = 300 * time.Second
 	sp.Gen = func(t *rapid.T) Case {
 		if rapid.Bool().Draw(t, "mutated") {
 			return genMutation(t)
